@@ -342,7 +342,12 @@ impl TryFrom<&[u8]> for ExtendedAddr {
 
     fn try_from(slice: &[u8]) -> Result<Self, Self::Error> {
         let mut raw = Deserializer::from(std::io::Cursor::new(slice));
-        cbor_event::de::Deserialize::deserialize(&mut raw)
+        let addr: ExtendedAddr = cbor_event::de::Deserialize::deserialize(&mut raw)?;
+        // a stand-alone address is the whole input: bytes after the CRC-protected address are an error
+        if raw.as_mut_ref().position() != slice.len() as u64 {
+            return Err(cbor_event::Error::TrailingData);
+        }
+        Ok(addr)
     }
 }
 impl cbor_event::se::Serialize for ExtendedAddr {
